@@ -271,6 +271,19 @@ def inplace_cases(rng):
             return x.t().reshape(-1)
     add("view of a transposed tensor raises", view_raises, R(2, 3))
 
+    def write_into_other_dtypes(x):
+        outs = []
+        for dt in (torch.int64, torch.float32, torch.bool, torch.uint8):
+            buf = torch.zeros(2, 3, dtype=dt)
+            buf[0] = x[0] * 1.3 + 0.2
+            buf[1, :2] = x[1, :2]
+            outs.append(buf.double() if not isinstance(buf, st.SymTensor) else buf)
+        e = torch.zeros(2, 3, dtype=torch.float32)
+        e.copy_(x * 0.7)
+        outs.append(e.double() if not isinstance(e, st.SymTensor) else e)
+        return outs
+    add("writes into int64 / float32 / bool / uint8 tensors convert the values", write_into_other_dtypes, torch.tensor(rng.integers(0, 5, size=(2, 3)) / 2.0, dtype=torch.double))
+
     def diag_div(x, y):
         return x.clone().div_(y)
     add("div_", diag_div, R(2, 3), torch.tensor(rng.integers(1, 4, size=(2, 3)) / 1.0, dtype=torch.double))
